@@ -1,6 +1,7 @@
 import AdaptixModel.Protocol
 import AdaptixModel.Types.Generic
 import AdaptixModel.Types.GenericWf
+import AdaptixModel.Types.GenericTypeVars
 
 /-
   JSON ops of the C16 driver.
@@ -14,6 +15,12 @@ import AdaptixModel.Types.GenericWf
   ops: resolve {h, target: base}  ->  {members, spec, wf, prec, ovis, mono, noconf}
        raw     {h, cls}           ->  {members, overridden, orig}
        implicit{tvar}             ->  hint
+       typevars{hint, own: n}     ->  the object facts `objOf` assumes for the hint (spelling, parameters, isType, ...)
+                                      and what get_type_vars / get_type_vars_of_parametrized / is_generic compute on
+                                      them, next to the structural hasTV / isGeneric / tvs; `own` = the type variable
+                                      an unsubscribed user generic class is generic in
+       parametrize{hint, dict: [[n, hint]…], own: n}  ->  `_parametrize_by_dict` over the object facts (null = KeyError)
+                                      and the structural `parametrizeByDict`
 -/
 namespace Adaptix.Ops.C16
 open Lean Adaptix.Protocol Adaptix.Generic
@@ -104,6 +111,18 @@ def decHierarchy (j : Json) : Except String Hierarchy := do
 def encMembers (m : Members) : Json :=
   listJ (m.map fun (k, t) => listJ [Json.str k, encHint t])
 
+def spellingName : Spelling → String
+  | .typeVar => "TypeVar"
+  | .plainClass => "class"
+  | .unionTypeClass => "UnionType-class"
+  | .bareBuiltin => "bare-builtin"
+  | .bareTypingAlias => "bare-typing-alias"
+  | .bareUserGeneric => "bare-user-generic"
+  | .typingAlias => "typing._GenericAlias"
+  | .typingUnion => "typing._UnionGenericAlias"
+  | .builtinAlias => "types.GenericAlias"
+  | .pep604Union => "types.UnionType"
+
 def handle : Protocol.Handler := fun j => do
   let op ← fieldStr j "op"
   match op with
@@ -135,6 +154,40 @@ def handle : Protocol.Handler := fun j => do
   | "implicit" =>
     let (_, d) ← decTVar (← field j "tvar")
     return encHint d.implicit
+  | "typevars" =>
+    let t ← decHint (← field j "hint")
+    let own ← (fieldNat j "own" <|> pure 0)
+    let o := objOf (fun _ => [own]) t
+    return Json.mkObj [
+      ("spelling", Json.str (spellingName o.spelling)),
+      ("parameters", match o.parameters with
+        | .absent => Json.str "absent"
+        | .descriptor => Json.str "descriptor"
+        | .tuple vs => listJ (vs.map natJ)),
+      ("isType", Json.bool o.isType),
+      ("isBuiltinAlias", Json.bool o.isBuiltinAlias),
+      ("isAlias", Json.bool o.isAlias),
+      ("hasArgs", Json.bool o.hasArgs),
+      ("builtinOrigin", Json.bool o.builtinOrigin),
+      ("isTypeVar", Json.bool o.isTypeVar),
+      ("typeVars", listJ ((getTypeVars o).map natJ)),
+      ("ofParametrized", listJ ((typeVarsOfParametrized o).map natJ)),
+      ("isGenericCode", Json.bool (isGenericCode o)),
+      ("hasTV", Json.bool t.hasTV),
+      ("isGeneric", Json.bool t.isGeneric),
+      ("tvs", listJ (t.tvs.map natJ))]
+  | "parametrize" =>
+    let t ← decHint (← field j "hint")
+    let own ← (fieldNat j "own" <|> pure 0)
+    let σ ← (← fieldArr j "dict").mapM fun kv => do
+      match kv with
+      | .arr #[k, h] => return (← asNat k, ← decHint h)
+      | _ => throw "expected [tv, hint]"
+    return Json.mkObj [
+      ("code", match parametrizeByDictCode (fun _ => [own]) σ t with
+        | some r => encHint r
+        | none => Json.null),
+      ("structural", encHint (parametrizeByDict σ t))]
   | _ => throw s!"unknown op {op}"
 
 end Adaptix.Ops.C16
